@@ -177,7 +177,7 @@ def run(ctx, scratch):
     chk = Impl(checked, threads=2)
     ctx.extra['checked_build'] = 'boundscheck/wraparound forced on, -O1 -D_GLIBCXX_ASSERTIONS'
     # the flat models of Props/C17.v against the compiled kernels, on the same arrays (see the second half of this file)
-    kernel_correspondence(ctx, scratch)
+    kernel_correspondence(ctx, scratch, checked)
     try:
         desc = normal.call('registry', 'describe', None, timeout=120)['ok']
         for name in sorted(desc):
@@ -326,6 +326,7 @@ Definition lv_fuel (n : nat) (indptr indices : list nat) (data ow iw : list Q) (
 '''
 TOL32 = 2e-4
 K_TIMEOUT = 10.0
+MAX_KERNEL_HANGS = 3     # after that many supervised time-outs / crashes of one kernel (each reported) its remaining cases are not run
 LCM10 = 2520          # rand() % s == (rand() % 2520) % s for every s <= 10 (the stream is handed to Coq reduced: nat is unary)
 LEIDEN_FUEL_CAP = 4096
 GENERAL_FUEL = 40       # passes granted to the model outside the contract of a termination theorem (kernel run only if it returns)
@@ -460,12 +461,43 @@ class KStats:
     def __init__(self, name, mode, tie):
         self.name, self.mode, self.tie = name, mode, tie
         self.d = dict(evaluated=0, compared=0, agree=0, dropped_inexact=0, dropped_model_cost=0, tolerance_compared=0, kernel_not_run_model_oob=0,
-                      kernel_not_run_model_out_of_fuel=0, outside_contract=0, violations=0)
+                      kernel_not_run_model_out_of_fuel=0, outside_contract=0, violations=0, hangs_or_crashes=0,
+                      not_run_after_repeated_hangs=0, checked_build_runs=0, checked_failures=0)
 
     def as_dict(self):
         out = dict(model_vs_kernel=self.mode, tie=self.tie)
         out.update(self.d)
         return out
+
+
+_CHECKED = {'impl': None}
+
+
+def checked_call(ctx, st, site, mod, fn, args, case, fam, normal_ok):
+    """The same call on the bounds-checked rebuild (boundscheck / wraparound forced on, libstdc++ assertions): the model
+    returned KOk, i.e. claims that no access is out of range, so the checked kernel must return, and return the same."""
+    chk = _CHECKED['impl']
+    if chk is None or st.d['checked_failures'] >= MAX_KERNEL_HANGS:
+        return
+    r = chk.call(mod, fn, args, timeout=3 * K_TIMEOUT)
+    ctx.traces += 1
+    st.d['checked_build_runs'] += 1
+    if 'ok' in r and r['ok'] == normal_ok:
+        return
+    st.d['checked_failures'] += 1
+    st.d['violations'] += 1
+    if 'crash' in r:
+        ctx.violation(site, 'bounds-checked build of the kernel aborts (exit %s) where the flat model reports no out-of-bounds access'
+                      % r['crash'], case=case, kind='oob_abort', family=fam, kernel_call=True)
+    elif 'hang' in r:
+        ctx.violation(site, 'bounds-checked build of the kernel does not return', case=case, kind='hang_checked', family=fam,
+                      kernel_call=True)
+    elif r.get('err') == 'IndexError':
+        ctx.violation(site, 'bounds-checked build of the kernel raises IndexError where the flat model reports no out-of-bounds access',
+                      case=case, kind='oob_index', family=fam, kernel_call=True, msg=r.get('msg'), tb=r.get('tb'))
+    else:
+        ctx.violation(site, 'bounds-checked build of the kernel answers differently from the normal build', case=case,
+                      kind='checked_differs', family=fam, kernel_call=True, expected=normal_ok, observed=r)
 
 
 def run_cases(ctx, impl, st, site, fn, cases, compare, shard, mod='c17', skip_count=False):
@@ -490,8 +522,13 @@ def run_cases(ctx, impl, st, site, fn, cases, compare, shard, mod='c17', skip_co
                               family=c['fam'], expected='KOk', observed=common.jsonable(v))
             st.d['kernel_not_run_model_oob' if tag == 'oob' else 'kernel_not_run_model_out_of_fuel'] += 1
             continue
+        if st.d['hangs_or_crashes'] >= MAX_KERNEL_HANGS:
+            st.d['not_run_after_repeated_hangs'] += 1
+            continue
         r = impl.call(mod, fn, c['args'], timeout=K_TIMEOUT)
         ctx.traces += 1
+        if 'hang' in r or 'crash' in r:
+            st.d['hangs_or_crashes'] += 1
         if 'hang' in r:
             st.d['violations'] += 1
             ctx.violation(site, 'the compiled kernel does not return within %.0f s where the model returns' % K_TIMEOUT, case=case,
@@ -507,6 +544,7 @@ def run_cases(ctx, impl, st, site, fn, cases, compare, shard, mod='c17', skip_co
             ctx.violation(site, 'the compiled kernel raised where the model returns', case=case, kind='model_correspondence',
                           family=c['fam'], expected=common.jsonable(mv), observed=r)
             continue
+        checked_call(ctx, st, site, mod, fn, c['args'], case, c['fam'], r['ok'])
         res = compare(c, mv, r['ok'])
         if res == 'dropped':
             st.d['dropped_inexact'] += 1
@@ -836,8 +874,13 @@ def k_push(ctx, impl, rng, quick):
     cases = []
     for c in pre:
         a = c['args']
+        if st.d['hangs_or_crashes'] >= MAX_KERNEL_HANGS:
+            st.d['not_run_after_repeated_hangs'] += 1
+            continue
         r = impl.call('c17', 'push', a, timeout=K_TIMEOUT)
         ctx.traces += 1
+        if 'hang' in r or 'crash' in r:
+            st.d['hangs_or_crashes'] += 1
         ctx.count('kernel:push_pagerank:' + c['fam'], ('push', a), c['nontrivial'])
         st.d['evaluated'] += 1
         case = dict(kernel='push_pagerank', family=c['fam'], args=a)
@@ -853,6 +896,7 @@ def k_push(ctx, impl, rng, quick):
                           observed=r)
             continue
         c['impl'] = r['ok']
+        checked_call(ctx, st, 'push_pagerank', 'c17', 'push', a, case, c['fam'], r['ok'])
         order = r['ok']['argsort']
         if sorted(order) != list(range(a['n'])):
             st.d['violations'] += 1
@@ -1184,10 +1228,14 @@ def k_leiden(ctx, impl, rng, quick):
             if c['guard'] != 'ok':
                 st.d['kernel_not_run_model_oob' if c['guard'] == 'oob' else 'kernel_not_run_model_out_of_fuel'] += 1
                 continue
+        if st.d['hangs_or_crashes'] >= MAX_KERNEL_HANGS:
+            st.d['not_run_after_repeated_hangs'] += 1
+            continue
         r = impl.call('c17', 'leiden_refine', c['args'], timeout=K_TIMEOUT)
         ctx.traces += 1
         if 'hang' in r or 'crash' in r:
             if c['contract']:
+                st.d['hangs_or_crashes'] += 1
                 st.d['violations'] += 1
                 ctx.violation('optimize_refine_core', 'the compiled kernel %s on an input inside the contract of leiden_refine_terminates '
                               '(exact dyadic arithmetic: every accepted move strictly increases the objective)'
@@ -1205,6 +1253,7 @@ def k_leiden(ctx, impl, rng, quick):
             ctx.notes.append('optimize_refine_core: rand() stream not reproduced after srand (draws=%r): case skipped' % o['draws'])
             continue
         c['impl'] = o
+        checked_call(ctx, st, 'optimize_refine_core', 'c17', 'leiden_refine', c['args'], case, c['fam'], o)
         n = c['n']
         fuel = min(n ** n + 1, LEIDEN_FUEL_CAP) if c['contract'] else GENERAL_FUEL
         c['expr'] = leiden_expr(c, [x % LCM10 for x in o['stream']], fuel)
@@ -1379,13 +1428,14 @@ KERNELS = [k_triangles, k_vote, k_core, k_diteration, k_push, k_propagation, k_l
            k_bfs_light, k_paris_light]
 
 
-def kernel_correspondence(ctx, scratch):
+def kernel_correspondence(ctx, scratch, checked=None):
     import time
     rng = ctx.rng
     quick = ctx.tier == 'quick'
     t0 = time.time()
     out = {}
     impl = Impl(scratch, threads=1)      # one OpenMP thread: the prange loops of push_pagerank run in index order, as in the model
+    _CHECKED['impl'] = Impl(checked, threads=1) if checked else None
     try:
         for k in KERNELS:
             t = time.time()
@@ -1395,6 +1445,9 @@ def kernel_correspondence(ctx, scratch):
             out[st.name] = d
     finally:
         impl.close()
+        if _CHECKED['impl'] is not None:
+            _CHECKED['impl'].close()
+            _CHECKED['impl'] = None
     out['_models_tied_elsewhere'] = {
         'Louvain.leiden_fit (Props/C17.v section 11)': 'C06 correspondence (Model/Louvain.v leiden_fit with the recorded refinement answers)',
         'Paris.paris_core / paris_run (sections 9.6, 10)': 'C07 correspondence; light status run here',
